@@ -33,6 +33,17 @@ type Report struct {
 	start    time.Time
 	minimums map[string]int // rule-kind -> minimum instance count
 	counts   map[string]int
+
+	lastViolations []*Obligation
+	extraCoverage  map[string]any
+	mutantGuards   []mutTarget
+}
+
+type mutTarget struct {
+	file string // absolute path
+	pos  int    // byte offset of the comparison operator
+	fn   string
+	key  string
 }
 
 func newReport(prop, tier string) *Report {
@@ -197,7 +208,14 @@ func (r *Report) finish(explanation string, assumptions []string) int {
 		WallS:       time.Since(r.start).Seconds(),
 		Violations:  len(viol),
 	}
+	r.lastViolations = viol
+	for k, v := range r.extraCoverage {
+		ev.Coverage[k] = v
+	}
 	evdir := filepath.Join(verifDir(), "evidence")
+	if d := os.Getenv("VERIF_EVIDENCE_DIR"); d != "" {
+		evdir = d
+	}
 	os.MkdirAll(evdir, 0o755)
 	b, _ := json.MarshalIndent(ev, "", " ")
 	if err := os.WriteFile(filepath.Join(evdir, r.Prop+".json"), b, 0o644); err != nil {
@@ -208,6 +226,9 @@ func (r *Report) finish(explanation string, assumptions []string) int {
 		return 0
 	}
 	repdir := filepath.Join(verifDir(), "reports")
+	if d := os.Getenv("VERIF_EVIDENCE_DIR"); d != "" {
+		repdir = d
+	}
 	os.MkdirAll(repdir, 0o755)
 	rp := filepath.Join(repdir, fmt.Sprintf("%s-%s.json", r.Prop, r.Tier))
 	var sb strings.Builder
